@@ -23,6 +23,8 @@
 (*         "refused" (nothing listens: the connection attempt is refused),  *)
 (*         "acceptclose" (the connection is accepted and closed at once):   *)
 (*         the last two are dead at transport level, no RPC ever arrives    *)
+(*         (comment shapes "L<n>": the reply line of that certificate is   *)
+(*         exactly n bytes long, n around 64 KiB, 128 KiB, 1 MiB)          *)
 (*   certs, cm   the certificates of an "ok" reply, in the CA's order, and  *)
 (*         the comment the CA attached to each (possibly empty)             *)
 (* The environment of a case (variable env):                               *)
@@ -31,7 +33,12 @@
 (*         one per-try timeout; only explored when no endpoint is of class  *)
 (*         "deadline", i.e. when every failing endpoint fails fast) or      *)
 (*         "none" (no deadline at all and no per-try timeout; explored      *)
-(*         under the same condition: Sign must still return)                *)
+(*         under the same condition: Sign must still return) or "ample"     *)
+(*         (bounded, at least 3 times what all retry sequences of the      *)
+(*         endpoints of the list take together; same condition)            *)
+(*   tries number of tries the retry interceptor makes per endpoint (with   *)
+(*         a backoff delay between them); several tries at one endpoint    *)
+(*         are one contact                                                  *)
 (*   hist  what ELSE happens to TLS configuration in the same process:      *)
 (*         "none"; "before"/"between" (another client configuration is      *)
 (*         built from the CA files NOT in this signer's bundle, before the  *)
@@ -56,7 +63,8 @@ EXTENDS Integers, Sequences, FiniteSets, TLC
 CONSTANTS MaxN,         \* longest endpoint list explored
           Templates,    \* endpoint descriptors explored (records without certs/cm, with comment shapes sh)
           Bundles,      \* CA bundle variants explored: records [cas |-> set of CA names, lay |-> file layout]
-          Ctxs,         \* request-context budgets explored: subset of {"wide", "tight", "none"}
+          Ctxs,         \* request-context budgets explored: subset of {"wide", "tight", "none", "ample"}
+          Tries,        \* tries per endpoint explored (subset of 1..3)
           Hists,        \* process histories explored: subset of {"none", "before", "between", "signer", "rotate"}
           BackoffCfgs,  \* backoff configurations explored: records [base, max, mult, jit] (jit in tenths)
           Attempts      \* attempt numbers explored by the backoff walk
@@ -115,11 +123,11 @@ Inst(t, m) == [id |-> t.id, vmax |-> t.vmax, pol |-> t.pol, cls |-> t.cls, code 
 
 AllCAs    == {"ca1", "ca2", "caX"}
 Others(b) == AllCAs \ b.cas                        \* the CA files a history step loads: everything this signer must NOT trust
-NoEnv     == [ctx |-> "wide", hist |-> "none", loaded |-> {}, hdone |-> TRUE]
+NoEnv     == [ctx |-> "wide", tries |-> 1, hist |-> "none", loaded |-> {}, hdone |-> TRUE]
 InitCase == /\ bundle \in Bundles
-            /\ \E c \in Ctxs : \E h \in Hists : env = [ctx |-> c, hist |-> h, loaded |-> {}, hdone |-> h = "none"]
+            /\ \E c \in Ctxs : \E h \in Hists : \E t \in Tries : env = [ctx |-> c, tries |-> t, hist |-> h, loaded |-> {}, hdone |-> h = "none"]
             /\ \E n \in 0..MaxN : \E ts \in [1..n -> Templates] : eps = [m \in 1..n |-> Inst(ts[m], m)]
-            /\ env.ctx \in {"tight", "none"} => (env.hist = "none" /\ \A m \in 1..Len(eps) : eps[m].cls # "deadline")
+            /\ env.ctx \in {"tight", "none", "ample"} => (env.hist = "none" /\ \A m \in 1..Len(eps) : eps[m].cls # "deadline")
             /\ pc = "new" /\ i = 1 /\ contacted = <<>> /\ result = Pending /\ last = NoLbl
 InitBo   == /\ BackoffCfgs # {} /\ bundle = [cas |-> {}, lay |-> "none"] /\ env = NoEnv /\ eps = <<>> /\ pc = "bo" /\ i = 1
             /\ contacted = <<>> /\ result = Pending /\ last = NoLbl
@@ -226,7 +234,7 @@ P_C18 == [][C18_Step]_vars
 
 ---------------------------------------------------------------------------
 \* sanity of the design (invariants of the bounded model)
-TypeOK == /\ env.ctx \in {"wide", "tight", "none"} /\ env.loaded \subseteq AllCAs
+TypeOK == /\ env.ctx \in {"wide", "tight", "none", "ample"} /\ env.tries \in 1..3 /\ env.loaded \subseteq AllCAs
           /\ pc \in {"new", "loop", "returned", "refused", "bo"}
           /\ i \in 1..(MaxN + 1) /\ Len(contacted) <= MaxN
           /\ result.done \in BOOLEAN /\ result.err \in BOOLEAN
